@@ -216,7 +216,10 @@ func Main(t *testing.T, h Harness) {
 		// print the generated case of one index (debugging aid)
 		base, _ := strconv.ParseUint(os.Getenv("VSIM_BASE"), 10, 64)
 		idx := envInt("VSIM_FROM", 0)
+		runtime.VerifSetSeed(SeedFor(base, idx) | 1)
 		c := h.Gen(prop, SeedFor(base, idx), tier)
+		runtime.VerifSetSeed(0)
+		c.Harness, c.Prop, c.Tier, c.Seed = h.Name(), prop, tier, SeedFor(base, idx)
 		b, _ := json.MarshalIndent(c, "", " ")
 		os.Stdout.Write(b)
 	case "batch":
@@ -231,7 +234,9 @@ func Main(t *testing.T, h Harness) {
 			}
 			seed := SeedFor(base, i)
 			emit(line{T: "start", Idx: i, Seed: seed})
+			runtime.VerifSetSeed(seed | 1) // generation must not depend on map iteration order either
 			c := h.Gen(prop, seed, tier)
+			runtime.VerifSetSeed(0)
 			c.Harness, c.Prop, c.Tier, c.Seed = h.Name(), prop, tier, seed
 			runOne(t, h, c, i, dir)
 		}
